@@ -85,6 +85,8 @@ def run(ctx):
     for t in tasks:
         ctx.evaluations += 1
         ctx.count("op:" + t["op"])
+        for _k in catalogue.features(t):
+            ctx.count("feature:" + _k)
         if is_boundary(t):
             ctx.nontrivial.add(hashlib.sha1(json.dumps([t["world"], t["op"], t["args"]], sort_keys=True).encode()).hexdigest())
         if len(ctx.samples) < 3:
